@@ -21,7 +21,7 @@
    What is abstract (Section variables): the state type, the applications, the
    transaction decoder, the auth handler core, state root / events root.  The
    real applications are exercised by the harness, not by this model. *)
-From Verif Require Import Lib.Base.
+From Verif Require Import Lib.Base Gen.MuxOrder.
 
 (* ------------------------------------------------------------------ *)
 (* Dispatch order: insertion sort by byte-wise name comparison.        *)
@@ -143,7 +143,12 @@ Record msig := mkSig {
   sg_ok_res : sg_tx -> sg_state -> sg_txres;                  (* code OK + ctx.Data() *)
   sg_root : sg_state -> bytes;                                (* MKVS root: a function of the contents (C02) *)
   sg_evroot : list sg_evt -> bytes;                           (* Merkle root of the provable events *)
-  sg_meta_tx : bytes -> bytes -> bytes -> bytes               (* proposer key, state root, events root -> raw system tx *)
+  sg_meta_tx : bytes -> bytes -> bytes -> bytes;              (* proposer key, state root, events root -> raw system tx *)
+  (* upgrader.ConsensusUpgrade in BeginBlock / EndBlock context (mux.go:609-619, 786-798): a
+     due migration may write state and emit events; None = error = panic.  The upgrade backend
+     is NOT local configuration: a node with a different one is running different software. *)
+  sg_upgrade_begin : header -> sg_state -> option (sg_state * list sg_evt);
+  sg_upgrade_end : header -> sg_state -> option (sg_state * list sg_evt)
 }.
 
 Section Mux.
@@ -313,7 +318,10 @@ Section Mux.
      dispatch (sorted) list.  [proposing] = the hash is empty (PrepareProposal). *)
   Definition exec_block (cfg : localcfg) (apps : list app) (proposing : bool) (s : state) (b : block)
     : option (state * outputs) :=
-    match begin_all apps (binfo_of b) s [] with
+    match sg_upgrade_begin S (b_header b) s with
+    | None => None
+    | Some (s0, uev0) =>
+    match begin_all apps (binfo_of b) s0 uev0 with
     | None => None
     | Some (s1, bev) =>
       match deliver_all cfg apps (h_proposer (b_header b)) proposing (b_txs b) s1 [] [] with
@@ -322,11 +330,27 @@ Section Mux.
         match end_all apps s2 [] [] with
         | None => None
         | Some (s3, eev, vu) =>
-          let o0 := mkOut bev txr eev vu [] in
-          let evr := evroot (all_events o0) in
-          if validate_system proposing sc s3 evr then Some (s3, mkOut bev txr eev vu evr) else None
+          (* the order of the next two steps is read from mux.go by harness/cmd/gen muxorder *)
+          if endblock_upgrade_before_validate then
+            match sg_upgrade_end S (b_header b) s3 with
+            | None => None
+            | Some (s4, uev) =>
+              let eev' := eev ++ uev in
+              let evr := evroot (all_events (mkOut bev txr eev' vu [])) in
+              if validate_system proposing sc s4 evr then Some (s4, mkOut bev txr eev' vu evr) else None
+            end
+          else
+            (* validation first: it sees the state BEFORE the migration's EndBlock writes *)
+            let evr := evroot (all_events (mkOut bev txr eev vu [])) in
+            if validate_system proposing sc s3 evr then
+              match sg_upgrade_end S (b_header b) s3 with
+              | None => None
+              | Some (s4, _) => Some (s4, mkOut bev txr eev vu evr)
+              end
+            else None
         end
       end
+    end
     end.
 
   (* ---- the proposal cache with results ---- *)
